@@ -16,11 +16,15 @@ PROP = {'n_quick': 60,
  'assumes': ["uncompressed public keys and multi-leaf tap trees are not generated (C07's F9)"]}
 
 TEXT = {'text': 'Kernel-checked theorems over the per-field merge policy table that the translator rebuilds from the three `fn merge` bodies on every run: the '
-         'unique-id gate refuses different ids (C14_gate); every field merged by a keeping statement keeps whatever either operand has, at the global map and '
-         'every input/output position (C14_keeps_all), with the complement pinned as the finding class F3 and refuted by witnesses; the xpub key-source '
-         'reconciliation equals its documented algorithm and never panics outside the two known classes F2/F4 (C14_xpub) which are refuted by witnesses; '
-         'order/grouping independence for compatible descendants (C14_commutes, C14_family). Model and crate are run on the same PSETs on every check.',
+         'unique-id gate refuses different ids (C14_gate); every field merged by a keeping statement (7 global, 45 input, 17 output fields, incl. sighash_type, '
+         'sequence, amount, asset after the F3 repair) keeps whatever either operand has, at the global map and every input/output position (C14_keeps_all); the '
+         'complement is pinned by computation: the output commitments are fixed by the unique id (C14_commitments_fixed_by_uid), tx_data.fallback_locktime and the '
+         'clearing of non_witness_utxo are unrepaired findings refuted by witnesses; the xpub key-source reconciliation equals its documented algorithm and never '
+         'panics, for every pair of key sources (C14_xpub, unconditional after the F2+F4 repair); both merge orders of compatible descendants give the same PSET '
+         '(C14_commutes; the k-member family statement is kept visible, proved for k = 2, exercised for k <= 4 by the run). Model and crate are run on the same '
+         'PSETs on every check.',
  'design_ref': 'DESIGN.md section 6, C14',
  'note': 'Trusted: Coq kernel; translator (statement recogniser for fn merge bodies; unknown statements are a hard error); hand-written semantics of each '
-         'statement kind; opaque canonical field values; harness listing code; unique id abstract in theorems.',
+         'statement kind; opaque canonical field values; harness listing code; unique id abstract in theorems. Open: C14_family for k > 2; the unrepaired finding '
+         'C14-locktime-max-changes-unique-id (merge can change the unique id through max() on required lock times).',
  'technique': 'Coq proof generic in the regenerated policy table + per-run model/implementation correspondence'}
